@@ -11,6 +11,7 @@ import (
 	"reflect"
 	"sort"
 	"strings"
+	"unicode/utf8"
 
 	"google.golang.org/protobuf/proto"
 
@@ -333,6 +334,17 @@ func scalars() []interface{} {
 		[]interface{}{}, []interface{}{int8(1), "x", true, uint16(7), float32(2.5)}, []interface{}{[]interface{}{int32(1)}, []string{"n"}},
 		nil, struct{}{}, map[string]int{"a": 1}, []int{1}, &struct{}{}, []interface{}{struct{}{}}, []interface{}{"bad\xff"},
 	}
+	// strings around every corner of UTF-8: valid ones (among them the
+	// replacement character itself, NUL, the highest code point, a byte order
+	// mark) must convert, alone and as leaf-list members; invalid byte
+	// sequences must be refused
+	for _, str := range []string{"\uFFFD", "caf\uFFFD x", "\x00", "a\x00b", "\U0010FFFF", "\uFEFFbom", "\u2028", "\u0080", "\u07FF\u0800\uFFFF", string(rune(0xD800)),
+		"\xc3", "\x80", "\xc0\x80", "\xed\xa0\x80", "\xf4\x90\x80\x80", "ok\xfe"} {
+		s = append(s, str, []interface{}{str})
+		if utf8.ValidString(str) {
+			s = append(s, []string{str})
+		}
+	}
 	return s
 }
 
@@ -347,13 +359,13 @@ func specScalars() seqmc.Spec {
 		case nil, struct{}, map[string]int, []int, *struct{}:
 			supported = false
 		case string:
-			supported = v != "bad\xffutf8"
+			supported = utf8.ValidString(v)
 		case []interface{}:
 			for _, e := range v {
 				if _, bad := e.(struct{}); bad {
 					supported = false
 				}
-				if s, ok := e.(string); ok && s == "bad\xff" {
+				if s, ok := e.(string); ok && !utf8.ValidString(s) {
 					supported = false
 				}
 			}
